@@ -120,12 +120,14 @@ PLAN = {
               ["mailbox", "apps", "time", "script", "script2"], ["P01"]),
     "C02": _p(["C02.a", "C02.b"], [("core", 9, 12), ("time", 8, 11)], ["core", "time"],
               ["fanout", "mailbox", "time", "script", "script2"], ["P02"]),
-    "C03": _p(["C03.a", "C03.b", "C03.c", "C03.d"], [("core", 9, 12), ("apps", 8, 11)], ["core", "apps"],
+    # C07.a is C03's premise "for as long as the nameplate lives": an incarnation ends only by the
+    # causes C07 lists, so a repeated claim must be told the same id until then
+    "C03": _p(["C03.a", "C03.b", "C03.c", "C03.d", "C07.a"], [("core", 9, 12), ("apps", 8, 11)], ["core", "apps"],
               ["nameplate", "apps", "crowd", "script", "script2"], ["P03"]),
     "C05": _p(["C05.a", "C05.b", "C05.c", "C05.keep"], [("core", 9, 12)], ["core"],
               ["crowd", "mailbox", "script", "script2"], ["P05"]),
     "C06": _p(["C06.frame"], [("apps", 8, 11)], ["apps"], ["apps"], ["P06"],
-              pairs=[("iso", 60, 3000)], pairclause="C06.pair"),
+              pairs=[("iso", 96, 4000)], pairclause="C06.pair"),
     "C07": _p(["C07.a", "C07.b", "C07.c", "C07.d", "C07.e"], [("core", 9, 12), ("apps", 8, 11)],
               ["core", "apps"], ["nameplate", "apps", "crowd", "script", "script2"], ["P07"]),
     "C08": _p(["C08.a", "C08.b", "C08.c", "C08.d"], [("core", 9, 12)], ["core"],
@@ -137,15 +139,15 @@ PLAN = {
     "C09": _p(["C09.a", "C09.b"], [("crash", 8, 11), ("crashu", 7, 10)], ["crash", "crashu"],
               ["crash", "usage", "mailbox", "script2"], ["P09"]),
     "C10": _p(["C10.a", "C10.b", "C10.c", "C13.c"], [("crash", 8, 11), ("crashu", 7, 10)], ["crash", "crashu"],
-              ["crash"], ["P10", "P13"], pairs=[("resume", 60, 3000)], pairclause="C10.resume"),
+              ["crash"], ["P10", "P13"], pairs=[("resume", 120, 4000)], pairclause="C10.resume"),
     "C11": _p([], [("time", 8, 11)], ["time"], [], ["P01", "P02"],
-              pairs=[("restart", 60, 3000)], pairclause="C11.pair"),
+              pairs=[("restart", 120, 4000)], pairclause="C11.pair"),
     "C12": _p(["C12.a", "C12.b"], [("time", 8, 11), ("time2", 7, 10)], ["time", "time2"],
               ["time", "fanout", "script", "script2"], ["P12"]),
     "C13": _p(["C13.a", "C13.b", "C13.c"], [("time", 8, 11), ("time2", 7, 10)], ["time", "time2"],
               ["time", "crowd", "mailbox", "script", "script2"], ["P13"]),
     "C14": _p([], [("core", 9, 12)], ["core"], [], ["P03", "P07", "P08"],
-              pairs=[("resend", 72, 3000)], pairclause="C14.pair"),
+              pairs=[("resend", 120, 4000)], pairclause="C14.pair"),
     "C15": dict(_p(["C15.a", "C15.b", "C15.c"], [("usage", 7, 10), ("usage7", 7, 10)], ["usage", "usage7"],
                    ["usage", "crowd", "script2"], ["P15"]),
                 variants={"usage": [dict(usage=True, blur=0), dict(usage=True, blur=3)],
@@ -159,9 +161,9 @@ PLAN = {
                                     dict(usage=True, blur=3600, unit=1), dict(usage=True, blur=100, unit="1/100"),
                                     dict(usage=True, blur=700, unit="1/100")]}),
     "C18": dict(_p(["C18.a"], [("nolist", 8, 11), ("alloc", 8, 11), ("allocnl", 8, 11)], ["nolist"],
-                   ["nameplate"], ["P18"], pairs=[("config", 60, 3000)], pairclause="C18.pair"),
+                   ["nameplate"], ["P18"], pairs=[("config", 96, 4000)], pairclause="C18.pair"),
                 variants={"nameplate": [dict(allow=True), dict(allow=False), dict(allow=False, usage=True, blur=3)]}),
-    "C17": _p(["C17.a", "C17.b", "C17.c", "C17.d", "C17.e", "C17.f"], [("proto", 7, 10), ("apps", 8, 11)],
+    "C17": _p(["C17.a", "C17.b", "C17.c", "C17.d", "C17.e", "C17.f", "C17.g"], [("proto", 7, 10), ("apps", 8, 11)],
               ["proto"], ["proto", "apps", "script", "script2"], ["P17"]),
 }
 
@@ -190,4 +192,21 @@ def pair_cfg_text(regime, depth):
     for k, v in c.items():
         lines.append("  %s %s" % (k, v) if v.startswith("<-") else "  %s = %s" % (k, v))
     lines += ["CONSTRAINT PConstr", "VIEW PView", "INVARIANT PairInv", "CHECK_DEADLOCK FALSE"]
+    return "\n".join(lines) + "\n"
+
+
+# instances of spec/MBPairCfg.tla: the options of the second copy (first copy: listing allowed, no usage db)
+CFG_ALTS = [("FALSE", "TRUE", "3"), ("TRUE", "TRUE", "7"), ("FALSE", "FALSE", "0")]
+
+
+def paircfg_cfg_text(alt, depth):
+    c = dict(PAIR_BASE)
+    for k in ("AppB", "Spare", "AllowList", "UsageOn", "Blur", "MsgIds", "MaxDepth"):
+        c.pop(k, None)
+    c.update(AL1="TRUE", US1="FALSE", BL1="0", AL2=alt[0], US2=alt[1], BL2=alt[2], ClaimNames='{"1", "x"}',
+             AdvanceSteps="{5, 12}", MaxDepth=str(depth))
+    lines = ["SPECIFICATION CSpec", "CONSTANTS"]
+    for k, v in c.items():
+        lines.append("  %s %s" % (k, v) if v.startswith("<-") else "  %s = %s" % (k, v))
+    lines += ["CONSTRAINT CConstr", "VIEW CView", "INVARIANT CfgInv", "CHECK_DEADLOCK FALSE"]
     return "\n".join(lines) + "\n"
